@@ -99,3 +99,65 @@ def in_range(f):
 
 
 _parse_contract()
+
+
+# ------------------------------------------------------------------------------------------ buildCommand (C06 / C07)
+def _build_command_contract():
+    """buildCommand(gcode, **args) -- the command rendered for a merged (deferred) argument map.  Callers see it as an
+    opaque rendering `gcode.render(gcode, args)` (contracts/deferred.py); here the real function is executed (real
+    __init__, gcode setter, parameterDict setter, stringify) for argument maps of 0..3 entries with SYMBOLIC values
+    (None or any number) and the result is read back with the independent RS274 reader: the code, then exactly the
+    given letters in order, each carrying exactly its value (or none for None), every number rendered by formatNumber.
+    Bounded in the number of parameters only."""
+    c = REGISTRY.get(GP + "buildCommand")
+    LETTERS = ("P", "T", "S")
+    CODES = ("M204", "G4", "M73", "G38.2")
+
+    def pre(b):
+        p = mk_full_parser(b)
+        code = CODES[b.choose(len(CODES), "code")]
+        n = b.choose(4, "number of arguments")
+        kw = {}
+        for i in range(n):
+            kw[LETTERS[i]] = b.optreal("arg." + LETTERS[i])
+        return {"self": p, "args": {"gcode": code, "kwargs": b.dict(kw)}}
+    c.pre(pre)
+    c.inline_callees = {GP + "stringify", GP + "parse", GP + "parameterItems"}
+
+    def reads_back(f):
+        from spec import rs274
+        from spec import refprinter as RP
+        from fractions import Fraction
+        kw = f.old.a.kwargs
+        kw = kw.d if hasattr(kw, "d") else kw
+        want_code = f.a.gcode
+        if getattr(f, "native", False):
+            ws = rs274.words(f.result)
+            if not ws or ws[0][0] != want_code[0] or ws[0][1] != Fraction(want_code[1:]):
+                return False
+            params = ws[1:]
+            exp = [(k, None if v is None else Fraction(repr(float(v)))) for k, v in kw.items()]
+            got = [(l, None if v is None else Fraction(v)) for (l, v) in params]
+            return got == exp and "e" not in f.result.lower()
+        parts = RP.item_parts(f.result)
+        if parts is None:
+            return False
+        ws = rs274.rope_words(parts)
+        if not ws or ws[0][0] != want_code[0] or ws[0][1] != Fraction(want_code[1:]):
+            return False
+        params = ws[1:]
+        if [l for (l, _) in params] != list(kw.keys()):
+            return False
+        conds = []
+        holes = [p_ for p_ in parts if hasattr(p_, "value")]
+        for (l, v), (k, want) in zip(params, kw.items()):
+            present = Not(want.isnone) if hasattr(want, "isnone") else (want is not None)
+            if v is None:
+                conds.append(Not(present))
+            else:
+                conds.append(And(present, eq(v, val(want))))
+        return And(all(getattr(h, "plain", False) for h in holes), *conds)
+    c.ensures("C06.merged-command-reads-back-as-its-arguments", reads_back, props=("C06", "C07"))
+
+
+_build_command_contract()
